@@ -321,6 +321,46 @@ def c10(tier, seed):
     return vector_jobs(tier)
 
 
+def hasharr_jobs(tier):
+    X = tier == "thorough"
+    jobs = [Job("hasharr-bigkey", ["imagemc/hasharr.c"], ["bigkey"], wraps=VA_WRAPS, weight=1)]
+    for m in ([2, 3, 4, 5, 6] if X else [2, 3, 4, 5]):
+        jobs.append(Job("hasharr-M%d" % m, ["imagemc/hasharr.c"], [m], wraps=VA_WRAPS, weight=10 ** (m - 2)))
+    return jobs
+
+
+@prop("C06", "model_checking",
+      "BFS over every reachable memory image of a static hash table with M = 2..5 slots (thorough ..6) and a universe of six "
+      "keys chosen with an independent MurmurHash3: two short keys with home slot 0, one with home 1, one with home M-1 "
+      "(wrap-around probing; the first collision lands in a foreign home slot and later forces relocation), two 21-byte keys "
+      "with the same length, 16-byte prefix and home (matched by length+prefix+MD5 only); value lengths 1, 32, 33, 98, 99 on "
+      "both sides of every slot boundary. Ops: put / put_by_obj, remove / remove_by_obj, remove_by_idx(every slot), clear. "
+      "Oracle: map model for get of every key and a full getnext walk; size() triple = (keys, M, sum of slots(len)); a put "
+      "succeeds iff a slot is free and the value fits into free + released slots, else ENOBUFS, other keys untouched, own key "
+      "unchanged or absent; remove_by_idx succeeds iff that slot holds a key. Plus a 65535-byte key single case",
+      ["map + slot-accounting model in engines/imagemc/hasharr.c", "slots(len) = 1 + ceil(max(0, len-32)/66)"],
+      [need("states", 5000), need("relocations"), need("promotions"), need("slots_extension_seen"), need("slots_collision_seen"), forbid("replay_divergence")],
+      classes=["space:*", "image:get-*", "image:remove*", "image:walk-*", "image:bigkey", "image:ctor"])
+def c06(tier, seed):
+    return hasharr_jobs(tier)
+
+
+@prop("C07", "model_checking",
+      "same search as C06. State = byte image of the user region; every transition restores it by memcpy into a fresh heap "
+      "block at another address and alignment (offsets 0,4,8,12 mod 16 in rotation) that ends exactly at the region end, "
+      "attaches a new handle and operates; then (a) a second live handle on the same memory and (b) a third handle on a byte "
+      "copy at yet another address must observe exactly the same gets, walk and size triple; (c) an independent "
+      "well-formedness checker validates slot kinds, collision counts, home indices, value chains, back links, full blocks, "
+      "single ownership of every slot and header counters after every operation; (d) every transition is repeated from an "
+      "image whose unused bytes are 0xFF instead of 0 and must give the same result and canonical successor; (e) guard "
+      "bytes in front of the region and the ASan red zone behind it catch any write outside",
+      ["cross-process sharing is simulated by byte copies and extra handles in one process"],
+      [need("states", 5000), need("wellformed_checks", 10000), need("residue_differentials", 10000), need("relocations"), need("promotions")],
+      classes=["image:*", "guard:*"])
+def c07(tier, seed):
+    return hasharr_jobs(tier)
+
+
 def all_container_jobs(tier):
     jobs = tree_jobs(tier, "all") + hashtbl_jobs(tier) + listtbl_jobs(tier) + list_jobs(tier) + vector_jobs(tier)
     if "hasharr_jobs" in globals():
@@ -355,6 +395,10 @@ def c12(tier, seed):
 
 NOT_YET = {}
 ENGINES = [
+    {"name": "seqmc", "path": "engines/seqmc", "serves_properties": ["C01", "C02", "C03", "C04", "C05", "C08", "C09", "C10", "C11", "C12"],
+     "kind_free_text": "explicit-state BFS over API histories of one container (state = history replayed on a fresh object, canonical key = observable structure), reference model + structural checker + sanitizer + ownership/ledger oracles on every transition"},
+    {"name": "imagemc", "path": "engines/imagemc", "serves_properties": ["C06", "C07", "C11", "C12"],
+     "kind_free_text": "explicit-state BFS over qhasharr memory images restored by memcpy at a different address before every transition"},
     {"name": "inputmc", "path": "engines/inputmc", "serves_properties": ["C16", "C17", "C18", "C19", "C20"],
      "kind_free_text": "bounded-exhaustive input enumeration against independent references, ASan/UBSan as oracle"},
 ]
